@@ -132,39 +132,26 @@ Proof.
   - intros j Hj. apply run_visits_frame. intro Hin. apply Hj. exact (method_visits_ids _ _ _ Hin).
 Qed.
 
-(** the same for a transformation list, for every entity but a bare Angle *)
+(** the same for a transformation list, for every entity (a bare Angle included) *)
 Lemma list_visits_ids k n i : In i (map fst (list_visits k n)) -> In i (map snd (leaves n)).
 Proof.
-  rewrite list_visits_flat. destruct n as [j|j|j|l|b t s]; cbn [parts_of flat_map]; rewrite ?app_nil_r.
-  - apply method_visits_ids.
-  - apply method_visits_ids.
-  - simpl. tauto.
-  - intro H. rewrite leaves_ids_group. revert H. apply in_flat_map_ids.
-    apply Forall_forall. intros x _. apply method_visits_ids.
-  - rewrite leaves_oper, !map_app. intro H.
-    apply in_app_or in H. destruct H as [H | H]; [apply in_or_app; left; exact (method_visits_ids _ _ _ H)|].
-    apply in_app_or in H. apply in_or_app. right. apply in_or_app.
-    destruct H as [H | H]; [left; exact (method_visits_ids _ _ _ H)|]. right.
-    assert (G : In i (flat_map (fun x => map snd (leaves x)) s)).
-    { revert H. apply in_flat_map_ids. apply Forall_forall. intros x _. apply method_visits_ids. }
-    clear -G. induction s as [|x r IH]; [exact G|]. cbn [flat_map] in *. rewrite map_app.
-    apply in_app_or in G. apply in_or_app. destruct G; [left; assumption | right; auto].
+  destruct n as [j|j|j|l|b t s]; cbn [list_visits]; try apply method_visits_ids. apply visits_ids.
 Qed.
 
-Theorem list_commute t n h : valid t -> alias_free n = true -> not_angle n ->
+Theorem list_commute t n h : valid t -> alias_free n = true ->
   (forall r i, In (r, i) (leaves n) -> role_ok r (h i)) ->
   let h' := run_visits t (list_visits (kind_of t) n) h in
   (forall r i, In (r, i) (leaves n) -> h' i = image_cell t r (h i) \/ h' i = rev_cell (image_cell t r (h i))) /\
   (forall r i, In (r, i) (leaves n) -> r <> RArr -> h' i = image_cell t r (h i)) /\
   (forall j, ~ In j (map snd (leaves n)) -> h' j = h j).
 Proof.
-  intros Hv Ha Hn Hok h'.
+  intros Hv Ha Hok h'.
   destruct (commute_tree t n h Hv Ha Hok) as [C _].
   assert (Key : forall r i, In (r, i) (leaves n) ->
             h' i = image_cell t r (h i) \/ h' i = rev_cell (image_cell t r (h i))).
   { intros r i Hin. unfold h'. rewrite run_visits_cell.
     pose proof (cell_run_observable t (ops_at i (list_visits (kind_of t) n)) (h i)) as K. unfold geo in K.
-    rewrite ops_at_filter, (list_visits_observable _ _ Hn) in K.
+    rewrite ops_at_filter, list_visits_observable in K.
     rewrite <- (run_visits_cell t (visits (kind_of t) n) h i) in K. cbv zeta in C. rewrite (C r i Hin) in K. exact K. }
   split; [exact Key | split].
   - intros r i Hin Hr. destruct (Key r i Hin) as [E | E]; [exact E|]. rewrite E.
